@@ -185,7 +185,7 @@ def run_class_case(ci, pool):
 
 
 # ---- special shapes: bundles, observed-data containers, markings, toplevel-property extensions, datetime inputs in other zones
-NSPECIAL = 14
+NSPECIAL = 15
 
 
 def special_shapes(si: int) -> bool:
@@ -302,6 +302,28 @@ def run_special_case(si):
             r = roundtrip_ok(ind, ind_cls, None)
             if r is not True:
                 return (ts, "indicator") + r
+        return True
+    if si == 14:
+        # timestamp OBJECTS that already carry precision metadata (another object's property value, the result of parse_into_datetime, ...)
+        # given to constructors whose own slots have other settings, incl. the 2.0 marking definition that chooses its precision per input
+        from stix2.utils import Precision, PrecisionConstraint, STIXdatetime
+        targets = [(stix2.v20.MarkingDefinition, dict(definition_type="statement", definition={"statement": "s"})),
+                   (stix2.v21.MarkingDefinition, dict(definition_type="statement", definition={"statement": "s"})),
+                   (stix2.v20.Identity, dict(name="n", identity_class="individual")), (stix2.v21.Identity, dict(name="n", identity_class="individual")),
+                   (stix2.v20.Sighting, dict(sighting_of_ref="indicator--" + UU)), (stix2.v21.Sighting, dict(sighting_of_ref="indicator--" + UU))]
+        for p in Precision:
+            for c in PrecisionConstraint:
+                for us in (0, 123456, 120000, 999):
+                    v = STIXdatetime(2020, 1, 1, 0, 0, 7, us, tzinfo=pytz.utc, precision=p, precision_constraint=c)
+                    for cls, kw in targets:
+                        kw2 = dict(kw, created=v)
+                        if "modified" in cls._properties:
+                            kw2["modified"] = v
+                        if cls in (stix2.v20.Sighting, stix2.v21.Sighting):
+                            kw2.update(first_seen=v, last_seen=v)
+                        r = roundtrip_ok(cls(**kw2), cls, None)
+                        if r is not True:
+                            return (cls.__module__, p.name, c.name, us) + r
         return True
     sco = {"type": "network-traffic", "id": "network-traffic--" + UU, "protocols": ["tcp"], "src_ref": "ipv4-addr--" + UU, "src_port": 0, "is_active": False,
            "start": "2020-01-01T00:00:00.000001Z", "extensions": {"http-request-ext": {"request_method": "get", "request_value": "/", "request_header": {"A-b": ["é"]}},
